@@ -76,3 +76,6 @@ META = {
                "branch/event counters required",
   "soft_s": {"quick": 30, "thorough": 300},
 }
+
+# EXTENSION families added after the seeded-change rounds
+META["rule"] += (" Added after the seeded-change rounds: " '(c19_x) modulo_counter with float modulo/step pairs incl. coincidences where the float quotient is an integer (1.0/0.1, 2pi/(2pi/k)), stream-start vs numbers vs closed form compared cyclically over several wraps' ".")
